@@ -90,10 +90,35 @@ def _active():
     return _ACTIVE[0]
 
 
+def _lock_method(f):
+    """(lock, name) if f is a bound acquire/release/__enter__/__exit__ of a threading lock, else None."""
+    slf = getattr(f, "__self__", None)
+    if slf is not None and isinstance(slf, _LOCK_TYPES) and getattr(f, "__name__", "") in ("acquire", "release", "__enter__", "__exit__"):
+        return slf, f.__name__
+    return None
+
+
 def _g_call(f, *a, **k):
     tw = gen.lookup("G", f)
     if tw is None:
+        lm = _lock_method(f)
+        if lm is not None:
+            # explicit lock calls inside instrumented code go to the cooperative lock
+            s = _active()
+            lock, name = lm
+            coop = s.coop_of(lock)
+            if name in ("acquire", "__enter__"):
+                blocking = (a[0] if a else k.get("blocking", True)) if name == "acquire" else True
+                if not blocking:
+                    return coop.try_acquire(s.current)
+                while not coop.try_acquire(s.current):
+                    yield ("blocked", coop)
+                return True
+            coop.release(s.current)
+            return None
         return f(*a, **k)
+    if getattr(tw, "__vp_cm__", False):
+        return tw(*a, **k)  # a CmTwin object; its enter / exit are driven by the caller's `with`
     return (yield from tw(*a, **k))
 
 
@@ -114,7 +139,12 @@ def _g_release(cm):
     s.coop_of(cm).release(s.current)
 
 
-gen.HELPERS["G"] = {"_vp_call_G": _g_call, "_vp_is_lock_G": _g_is_lock, "_vp_acquire_G": _g_acquire, "_vp_release_G": _g_release}
+def _g_is_cmtwin(cm):
+    return isinstance(cm, gen.CmTwin)
+
+
+gen.HELPERS["G"] = {"_vp_call_G": _g_call, "_vp_is_lock_G": _g_is_lock, "_vp_acquire_G": _g_acquire, "_vp_release_G": _g_release,
+                    "_vp_is_cmtwin_G": _g_is_cmtwin}
 
 
 class Sched:
@@ -224,6 +254,13 @@ class Sched:
 def _h_call(f, *a, **k):
     tw = gen.lookup("H", f)
     if tw is None:
+        lm = _lock_method(f)
+        if lm is not None and lm[1] in ("acquire", "__enter__"):
+            lock, name = lm
+            blocking = (a[0] if a else k.get("blocking", True)) if name == "acquire" else True
+            if not blocking:
+                return lock.acquire(blocking=False)
+            return _h_acquire(lock)  # real lock, but waiting is reported to the controller step by step
         return f(*a, **k)
     return tw(*a, **k)
 
